@@ -19,8 +19,100 @@ import (
 )
 
 func (s *Writer) Stats() Stats {
-	// copy current stats
-	rv := s.stats
+	// copy current stats; the counters are updated concurrently with
+	// sync/atomic, so each one is loaded atomically (a plain struct copy
+	// would be a data race)
+	var rv Stats
+	rv.TotUpdates = atomic.LoadUint64(&s.stats.TotUpdates)
+	rv.TotDeletes = atomic.LoadUint64(&s.stats.TotDeletes)
+	rv.TotBatches = atomic.LoadUint64(&s.stats.TotBatches)
+	rv.TotBatchesEmpty = atomic.LoadUint64(&s.stats.TotBatchesEmpty)
+	rv.TotBatchIntroTime = atomic.LoadUint64(&s.stats.TotBatchIntroTime)
+	rv.MaxBatchIntroTime = atomic.LoadUint64(&s.stats.MaxBatchIntroTime)
+	rv.CurRootEpoch = atomic.LoadUint64(&s.stats.CurRootEpoch)
+	rv.LastPersistedEpoch = atomic.LoadUint64(&s.stats.LastPersistedEpoch)
+	rv.LastMergedEpoch = atomic.LoadUint64(&s.stats.LastMergedEpoch)
+	rv.TotOnErrors = atomic.LoadUint64(&s.stats.TotOnErrors)
+	rv.TotAnalysisTime = atomic.LoadUint64(&s.stats.TotAnalysisTime)
+	rv.TotIndexTime = atomic.LoadUint64(&s.stats.TotIndexTime)
+	rv.TotIndexedPlainTextBytes = atomic.LoadUint64(&s.stats.TotIndexedPlainTextBytes)
+	rv.TotTermSearchersStarted = atomic.LoadUint64(&s.stats.TotTermSearchersStarted)
+	rv.TotTermSearchersFinished = atomic.LoadUint64(&s.stats.TotTermSearchersFinished)
+	rv.TotIntroduceLoop = atomic.LoadUint64(&s.stats.TotIntroduceLoop)
+	rv.TotIntroduceSegmentBeg = atomic.LoadUint64(&s.stats.TotIntroduceSegmentBeg)
+	rv.TotIntroduceSegmentEnd = atomic.LoadUint64(&s.stats.TotIntroduceSegmentEnd)
+	rv.TotIntroducePersistBeg = atomic.LoadUint64(&s.stats.TotIntroducePersistBeg)
+	rv.TotIntroducePersistEnd = atomic.LoadUint64(&s.stats.TotIntroducePersistEnd)
+	rv.TotIntroduceMergeBeg = atomic.LoadUint64(&s.stats.TotIntroduceMergeBeg)
+	rv.TotIntroduceMergeEnd = atomic.LoadUint64(&s.stats.TotIntroduceMergeEnd)
+	rv.TotIntroduceRevertBeg = atomic.LoadUint64(&s.stats.TotIntroduceRevertBeg)
+	rv.TotIntroduceRevertEnd = atomic.LoadUint64(&s.stats.TotIntroduceRevertEnd)
+	rv.TotIntroducedItems = atomic.LoadUint64(&s.stats.TotIntroducedItems)
+	rv.TotIntroducedSegmentsBatch = atomic.LoadUint64(&s.stats.TotIntroducedSegmentsBatch)
+	rv.TotIntroducedSegmentsMerge = atomic.LoadUint64(&s.stats.TotIntroducedSegmentsMerge)
+	rv.TotPersistLoopBeg = atomic.LoadUint64(&s.stats.TotPersistLoopBeg)
+	rv.TotPersistLoopErr = atomic.LoadUint64(&s.stats.TotPersistLoopErr)
+	rv.TotPersistLoopProgress = atomic.LoadUint64(&s.stats.TotPersistLoopProgress)
+	rv.TotPersistLoopWait = atomic.LoadUint64(&s.stats.TotPersistLoopWait)
+	rv.TotPersistLoopWaitNotified = atomic.LoadUint64(&s.stats.TotPersistLoopWaitNotified)
+	rv.TotPersistLoopEnd = atomic.LoadUint64(&s.stats.TotPersistLoopEnd)
+	rv.TotPersistedItems = atomic.LoadUint64(&s.stats.TotPersistedItems)
+	rv.TotItemsToPersist = atomic.LoadUint64(&s.stats.TotItemsToPersist)
+	rv.TotPersistedSegments = atomic.LoadUint64(&s.stats.TotPersistedSegments)
+	rv.TotPersisterSlowMergerPause = atomic.LoadUint64(&s.stats.TotPersisterSlowMergerPause)
+	rv.TotPersisterSlowMergerResume = atomic.LoadUint64(&s.stats.TotPersisterSlowMergerResume)
+	rv.TotPersisterNapPauseCompleted = atomic.LoadUint64(&s.stats.TotPersisterNapPauseCompleted)
+	rv.TotPersisterMergerNapBreak = atomic.LoadUint64(&s.stats.TotPersisterMergerNapBreak)
+	rv.TotFileMergeLoopBeg = atomic.LoadUint64(&s.stats.TotFileMergeLoopBeg)
+	rv.TotFileMergeLoopErr = atomic.LoadUint64(&s.stats.TotFileMergeLoopErr)
+	rv.TotFileMergeLoopEnd = atomic.LoadUint64(&s.stats.TotFileMergeLoopEnd)
+	rv.TotFileMergePlan = atomic.LoadUint64(&s.stats.TotFileMergePlan)
+	rv.TotFileMergePlanErr = atomic.LoadUint64(&s.stats.TotFileMergePlanErr)
+	rv.TotFileMergePlanNone = atomic.LoadUint64(&s.stats.TotFileMergePlanNone)
+	rv.TotFileMergePlanOk = atomic.LoadUint64(&s.stats.TotFileMergePlanOk)
+	rv.TotFileMergePlanTasks = atomic.LoadUint64(&s.stats.TotFileMergePlanTasks)
+	rv.TotFileMergePlanTasksDone = atomic.LoadUint64(&s.stats.TotFileMergePlanTasksDone)
+	rv.TotFileMergePlanTasksErr = atomic.LoadUint64(&s.stats.TotFileMergePlanTasksErr)
+	rv.TotFileMergePlanTasksSegments = atomic.LoadUint64(&s.stats.TotFileMergePlanTasksSegments)
+	rv.TotFileMergePlanTasksSegmentsEmpty = atomic.LoadUint64(&s.stats.TotFileMergePlanTasksSegmentsEmpty)
+	rv.TotFileMergeSegmentsEmpty = atomic.LoadUint64(&s.stats.TotFileMergeSegmentsEmpty)
+	rv.TotFileMergeSegments = atomic.LoadUint64(&s.stats.TotFileMergeSegments)
+	rv.TotFileSegmentsAtRoot = atomic.LoadUint64(&s.stats.TotFileSegmentsAtRoot)
+	rv.TotFileMergeWrittenBytes = atomic.LoadUint64(&s.stats.TotFileMergeWrittenBytes)
+	rv.TotFileMergeZapBeg = atomic.LoadUint64(&s.stats.TotFileMergeZapBeg)
+	rv.TotFileMergeZapEnd = atomic.LoadUint64(&s.stats.TotFileMergeZapEnd)
+	rv.TotFileMergeZapTime = atomic.LoadUint64(&s.stats.TotFileMergeZapTime)
+	rv.MaxFileMergeZapTime = atomic.LoadUint64(&s.stats.MaxFileMergeZapTime)
+	rv.TotFileMergeZapIntroductionTime = atomic.LoadUint64(&s.stats.TotFileMergeZapIntroductionTime)
+	rv.MaxFileMergeZapIntroductionTime = atomic.LoadUint64(&s.stats.MaxFileMergeZapIntroductionTime)
+	rv.TotFileMergeIntroductions = atomic.LoadUint64(&s.stats.TotFileMergeIntroductions)
+	rv.TotFileMergeIntroductionsDone = atomic.LoadUint64(&s.stats.TotFileMergeIntroductionsDone)
+	rv.TotFileMergeIntroductionsSkipped = atomic.LoadUint64(&s.stats.TotFileMergeIntroductionsSkipped)
+	rv.TotFileMergeIntroductionsObsoleted = atomic.LoadUint64(&s.stats.TotFileMergeIntroductionsObsoleted)
+	rv.CurFilesIneligibleForRemoval = atomic.LoadUint64(&s.stats.CurFilesIneligibleForRemoval)
+	rv.TotSnapshotsRemovedFromMetaStore = atomic.LoadUint64(&s.stats.TotSnapshotsRemovedFromMetaStore)
+	rv.TotMemMergeBeg = atomic.LoadUint64(&s.stats.TotMemMergeBeg)
+	rv.TotMemMergeErr = atomic.LoadUint64(&s.stats.TotMemMergeErr)
+	rv.TotMemMergeDone = atomic.LoadUint64(&s.stats.TotMemMergeDone)
+	rv.TotMemMergeZapBeg = atomic.LoadUint64(&s.stats.TotMemMergeZapBeg)
+	rv.TotMemMergeZapEnd = atomic.LoadUint64(&s.stats.TotMemMergeZapEnd)
+	rv.TotMemMergeZapTime = atomic.LoadUint64(&s.stats.TotMemMergeZapTime)
+	rv.MaxMemMergeZapTime = atomic.LoadUint64(&s.stats.MaxMemMergeZapTime)
+	rv.TotMemMergeSegments = atomic.LoadUint64(&s.stats.TotMemMergeSegments)
+	rv.TotMemorySegmentsAtRoot = atomic.LoadUint64(&s.stats.TotMemorySegmentsAtRoot)
+	rv.TotEventFired = atomic.LoadUint64(&s.stats.TotEventFired)
+	rv.TotEventReturned = atomic.LoadUint64(&s.stats.TotEventReturned)
+	rv.CurOnDiskBytes = atomic.LoadUint64(&s.stats.CurOnDiskBytes)
+	rv.CurOnDiskBytesUsedByRoot = atomic.LoadUint64(&s.stats.CurOnDiskBytesUsedByRoot)
+	rv.CurOnDiskFiles = atomic.LoadUint64(&s.stats.CurOnDiskFiles)
+	rv.persistEpoch = atomic.LoadUint64(&s.stats.persistEpoch)
+	rv.persistSnapshotSize = atomic.LoadUint64(&s.stats.persistSnapshotSize)
+	rv.mergeEpoch = atomic.LoadUint64(&s.stats.mergeEpoch)
+	rv.mergeSnapshotSize = atomic.LoadUint64(&s.stats.mergeSnapshotSize)
+	rv.newSegBufBytesAdded = atomic.LoadUint64(&s.stats.newSegBufBytesAdded)
+	rv.newSegBufBytesRemoved = atomic.LoadUint64(&s.stats.newSegBufBytesRemoved)
+	rv.analysisBytesAdded = atomic.LoadUint64(&s.stats.analysisBytesAdded)
+	rv.analysisBytesRemoved = atomic.LoadUint64(&s.stats.analysisBytesRemoved)
 
 	// add some computed values
 	numFilesOnDisk, numBytesUsedDisk := s.directory.Stats()
@@ -28,7 +120,7 @@ func (s *Writer) Stats() Stats {
 	rv.CurOnDiskBytes = numBytesUsedDisk
 	rv.CurOnDiskFiles = numFilesOnDisk
 
-	return s.stats
+	return rv
 }
 
 // Stats tracks statistics about the index, fields that are
